@@ -30,6 +30,26 @@ REGISTRATION = {
 
 MODULES = ["OllamaVerif.Properties.C13", "OllamaVerif.Tie.C13"]
 THEOREMS = [
+    "OllamaVerif.C13.valid_part_safe_model",
+    "OllamaVerif.C13.valid_part_safe_names",
+    "OllamaVerif.C13.print_parse_model",
+    "OllamaVerif.C13.roundtrip_model",
+    "OllamaVerif.C13.print_parse_names",
+    "OllamaVerif.C13.roundtrip_names",
+    "OllamaVerif.C13.isFQM_eq_isFQN",
+    "OllamaVerif.C13.cross_parsers",
+    "OllamaVerif.C13.filepath_shape",
+    "OllamaVerif.C13.manifest_path_confined_legacy",
+    "OllamaVerif.C13.rejected_or_confined_legacy",
+    "OllamaVerif.C13.nameToPath_shape",
+    "OllamaVerif.C13.filepath_inverse",
+    "OllamaVerif.C13.relpath_accepted",
+    "OllamaVerif.C13.legacy_path_injective",
+    "OllamaVerif.Tie.C13.first_sets_match",
+    "OllamaVerif.Tie.C13.rest_sets_match",
+    "OllamaVerif.Tie.C13.length_limits_match",
+    "OllamaVerif.Tie.C13.accepted_bytes_safe",
+    "OllamaVerif.Tie.C13.colon_only_in_hosts",
 ]
 
 OV_MODEL = {"types/model/zz_verif_c13_test.go": "types_model/zz_verif_c13_test.go"}
